@@ -21,10 +21,10 @@ ENV = dict(os.environ, CARGO_NET_OFFLINE='true', CARGO_TARGET_DIR=os.path.join(C
 TRUSTED_BASE = [
     'Coq 8.16.1 kernel (coqc; vm_compute in Examples and refutation lemmas; no native_compute)',
     'axioms: none (Print Assumptions of every property theorem must say "Closed under the global context")',
-    'extraction: Require Extraction + ExtrOcamlBasic only (bool, option, unit, list, prod, sumbool, sumor; nat stays Peano); OCaml 4.13.1; coq/driver/*.ml (parsing/printing); a sample of every bundle (60 builder, 60 call, 30 stream cases) is re-proved in the kernel by vm_compute (lib/kernel_sample.py)',
+    'extraction: Require Extraction + ExtrOcamlBasic only (bool, option, unit, list, prod, sumbool, sumor; nat stays Peano); OCaml 4.13.1; coq/driver/*.ml (parsing/printing, incl. the text of each Yaml.yline constructor: key words and decimal numerals); a sample of every bundle (60 builder, 60 call, 30 stream cases) is re-proved in the kernel by vm_compute (lib/kernel_sample.py)',
     'Rust harness /verif/harness (generators, controlled executor, canonicalisation), cargo/rustc',
     'lib/*.py: diff of projections, independent monitors',
-    'modelled not verified (tied by correspondence only): petgraph 0.8.3, daggy 0.9.0, tokio 1.53 mpsc/RwLock, futures-util 0.3.34, interruptible 0.2.4, slice::sort_by stability',
+    'modelled not verified (tied by correspondence only): serde_yaml_ng 0.10 emitter for GraphInfo<u64> (text compared byte for byte) and its reader (round trips + malformed-edge texts only), petgraph 0.8.3, daggy 0.9.0, tokio 1.53 mpsc/RwLock, futures-util 0.3.34, interruptible 0.2.4, slice::sort_by stability',
 ]
 
 
